@@ -9,34 +9,99 @@ import (
 	"charonverif/internal/rt"
 )
 
+// freshList decides whether a returned list is memory of its own (a copy), following in-package
+// callees (a locking wrapper returns what its *Unsafe body returns).
+func (k *c07k) freshList(v ssa.Value, depth int) c07v {
+	v = an.H07ReachingDef(v)
+	if an.IsNilConst(v) {
+		return c07Ok()
+	}
+	if depth > 3 {
+		return c07Unsure("origin of the returned list is too deep to follow")
+	}
+	switch x := v.(type) {
+	case *ssa.MakeSlice:
+		return c07Ok()
+	case *ssa.Phi:
+		out := c07Ok()
+		for _, e := range x.Edges {
+			out = out.and(k.freshList(e, depth+1))
+		}
+		return out
+	case *ssa.Slice:
+		if al, ok := an.Resolve(x.X).(*ssa.Alloc); ok && al.Heap {
+			return c07Ok() // slice of a freshly allocated array (composite literal)
+		}
+		return k.freshList(x.X, depth+1)
+	case *ssa.Call:
+		if b, ok := x.Call.Value.(*ssa.Builtin); ok {
+			if b.Name() == "append" && len(x.Call.Args) > 0 {
+				// append(nil, xs...) / append([]T{}, xs...) / append(s[:0:0], xs...) copy; append(fresh, ...) stays fresh
+				if sl, ok := an.Resolve(x.Call.Args[0]).(*ssa.Slice); ok && sl.Max != nil {
+					if n, isC := an.ConstInt(sl.Max); isC && n == 0 {
+						return c07Ok()
+					}
+				}
+				return k.freshList(x.Call.Args[0], depth+1)
+			}
+			return c07Unsure("returned list is the result of builtin " + b.Name())
+		}
+		if f := x.Call.StaticCallee(); f != nil && an.FuncName(f) == "slices.Clone" {
+			return c07Ok()
+		}
+	}
+	if call, idx, ok := c07resultOf(v); ok {
+		if g := k.ix.Callee(&call.Call); g != nil {
+			out, n := c07Ok(), 0
+			for _, r := range an.Returns(g) {
+				rv := returnValues(r)
+				if idx >= len(rv) {
+					continue
+				}
+				n++
+				out = out.and(k.freshList(rv[idx], depth+1))
+			}
+			if n == 0 {
+				return c07Unsure(an.FuncName(g) + " has no return")
+			}
+			return out
+		}
+	}
+	if c07entries(v) {
+		return c07Bad("stored slice")
+	}
+	return c07Unsure("origin of the returned list is not recognised")
+}
+
+func init() {
+	Extend("C07", "", func(*rt.Ctx) {},
+		Mutant{ID: "C07-P9-return-resliced-stored", File: "core/parsigdb/memory.go", Expect: "P9",
+			Old: "\treturn append([]core.ParSignedData(nil), db.entries[k]...), true, nil", New: "\treturn db.entries[k][:len(db.entries[k]):len(db.entries[k])], true, nil"},
+		Mutant{ID: "C07-P10-evict-second-oldest", File: "core/parsigdb/memory.go", Expect: "P10",
+			Old: "\t\tdb.evictExemptShareEntryUnsafe(ctx, stored[0], shareIdx)", New: "\t\tdb.evictExemptShareEntryUnsafe(ctx, stored[1], shareIdx)"},
+		Mutant{ID: "C07-P10-evict-last", File: "core/parsigdb/memory.go", Expect: "P10",
+			Old: "\t\tdb.evictExemptShareEntryUnsafe(ctx, stored[0], shareIdx)", New: "\t\tdb.evictExemptShareEntryUnsafe(ctx, stored[len(stored)-1], shareIdx)"})
+}
+
 func c07P9P10(c *rt.Ctx) {
+	k := newC07k(c)
 	c.Rule("P9", 1, func() {
 		fn := c.Fn("core/parsigdb.MemDB.store")
 		n := 0
 		for _, r := range an.Returns(fn) {
-			if len(r.Results) != 3 {
+			if len(r.Results) != 3 || r.Block().Comment == "recover" {
 				continue
 			}
 			rv := returnValues(r)
-			if an.IsNilConst(rv[0]) {
-				continue
-			}
-			if _, isLoad := rv[0].(*ssa.UnOp); isLoad && r.Block().Comment == "recover" {
+			if an.IsNilConst(an.Resolve(rv[0])) {
 				continue
 			}
 			n++
-			good := false
-			v := an.Unwrap(rv[0])
-			if call, ok := v.(*ssa.Call); ok {
-				if b, ok := call.Call.Value.(*ssa.Builtin); ok && b.Name() == "append" && an.IsNilConst(call.Call.Args[0]) {
-					good = true
-				}
-				if f := call.Call.StaticCallee(); f != nil && an.FuncName(f) == "slices.Clone" {
-					good = true
-				}
+			v := k.freshList(rv[0], 0)
+			if v.st == c07bad {
+				v.why = "store hands the stored slice itself to the threshold matcher: the exempt-cap eviction filters that slice in place under a later lock, so the matcher can see a repeated or missing share"
 			}
-			c.Check("store returns a private snapshot", posOf(r), good,
-				"store hands the stored slice itself to the threshold matcher: the exempt-cap eviction filters that slice in place under a later lock, so the matcher can see a repeated or missing share")
+			k.report("store returns a private snapshot", posOf(r), v)
 		}
 		if n == 0 {
 			c.Bail("store: no non-nil list returned")
@@ -44,30 +109,54 @@ func c07P9P10(c *rt.Ctx) {
 	})
 	c.Rule("P10", 1, func() {
 		fn := c.Fn("core/parsigdb.MemDB.trackExemptUnsafe")
+		evict := c.Fn("core/parsigdb.MemDB.evictExemptShareEntryUnsafe")
+		var keyP *ssa.Parameter
+		for _, p := range evict.Params {
+			if an.TypeName(p.Type()) == "core/parsigdb.key" && keyP == nil {
+				keyP = p
+			}
+		}
+		if keyP == nil {
+			c.Bail("evictExemptShareEntryUnsafe: no key parameter")
+		}
 		for _, call := range c.SomeCalls(fn, an.Static("core/parsigdb.MemDB.evictExemptShareEntryUnsafe"), "evictExemptShareEntryUnsafe", false) {
-			good := false
-			if ld, ok := an.Unwrap(call.Common().Args[2]).(*ssa.UnOp); ok && ld.Op == token.MUL {
-				if ia, ok := ld.X.(*ssa.IndexAddr); ok {
-					if k, ok := an.ConstInt(ia.Index); ok && k == 0 {
-						// the indexed list is the tracked list (lookup of exemptEntries, possibly appended)
-						x := an.Unwrap(ia.X)
-						for i := 0; i < 4; i++ {
-							if ap, ok := x.(*ssa.Call); ok {
-								if b, ok := ap.Call.Value.(*ssa.Builtin); ok && b.Name() == "append" {
-									x = an.Unwrap(ap.Call.Args[0])
-									continue
-								}
-							}
-							break
+			v := c07Unsure("origin of the evicted key is not recognised")
+			arg := an.Resolve(an.H07ArgFor(call, an.H07ParamIndex(keyP)))
+			if _, isParam := arg.(*ssa.Parameter); isParam {
+				v = c07Bad("")
+			}
+			if coll, idx, ok := an.H07ElemRef(arg); ok {
+				if n, isC := an.ConstInt(idx); !isC {
+					v = c07Unsure("evicted key is a tracked entry at a non-constant position")
+					if sub, ok := an.Resolve(idx).(*ssa.BinOp); ok && sub.Op == token.SUB && an.H07IsLen(sub.X) != nil {
+						v = c07Bad("") // counted from the end of the list: the newest entries
+					}
+				} else if n != 0 {
+					v = c07Bad("")
+				} else {
+					// the indexed list is the tracked list (lookup of exemptEntries, possibly appended)
+					x := an.Resolve(coll)
+					for i := 0; i < 4; i++ {
+						if ap, ok := c07isBuiltin(x, "append"); ok {
+							x = an.Resolve(ap.Call.Args[0])
+							continue
 						}
-						if k2, _, ok := an.FieldOf(x); ok && k2 == memdb+".exemptEntries" {
-							good = true
-						}
+						break
+					}
+					if c07exempt(x) {
+						v = c07Ok()
 					}
 				}
 			}
-			c.Check("trackExemptUnsafe evicts the oldest tracked entry", call.Pos(), good,
-				"the entry evicted at the cap is not element 0 of the tracked list: the partial just stored is deleted again (store still reports success) and threshold is never reached for new duties")
+			if ld, ok := arg.(*ssa.UnOp); ok && ld.Op == token.MUL && v.st == c07unsure {
+				if _, isAlloc := ld.X.(*ssa.Alloc); isAlloc {
+					v = c07Unsure("evicted key is a local assigned in several places")
+				}
+			}
+			if v.st == c07bad {
+				v.why = "the entry evicted at the cap is not element 0 of the tracked list: the partial just stored is deleted again (store still reports success) and threshold is never reached for new duties"
+			}
+			k.report("trackExemptUnsafe evicts the oldest tracked entry", call.Pos(), v)
 		}
 	})
 }
